@@ -171,8 +171,45 @@ pub fn project(r: &Request) -> Value {
 /// words: [case class (0..6), sub selector, values...]
 fn g_case(src: &mut Src, obs: &mut Obs) -> CaseResult {
     let _g = CommonGuard::new();
-    let class = src.below(6);
+    let class = src.below(7);
     match class {
+        6 => {
+            // decode: canonical bytes of a stand-alone type built from common members, intact or
+            // with one member removed / one value of another type (optionality and typing of the
+            // common members must not depend on the configuration)
+            let t = types::ALL[src.below(types::ALL.len())];
+            let mut ti = TInfo::default();
+            let mut model = rs::expected(&types::gen(t, src, &mut ti));
+            let fault = src.below(4);
+            let paths = crate::mutate::walk(&model);
+            if fault >= 2 && paths.len() > 1 {
+                let p = paths[1 + src.below(paths.len() - 1)].clone();
+                if fault == 2 {
+                    crate::mutate::remove(&mut model, &p);
+                } else if let Some(n) = crate::mutate::get_mut(&mut model, &p) {
+                    *n = crate::mutate::palette(src.below(7));
+                }
+            }
+            obs.labelf(format!("decode-type:{}", t.name()));
+            if fault >= 2 {
+                obs.label("decode-type:faulted");
+            }
+            let bytes = refcbor::encode_canonical(&model);
+            let line = if t == T::Certifications || !t.available() {
+                "SKIPPED".to_string()
+            } else {
+                match types::decode_reencode(t, &bytes) {
+                    Some(Ok(b)) => format!("ok {}", hex(&b)),
+                    Some(Err(e)) => format!("ERROR {}", if e.starts_with("decode:") { e.as_str() } else { e.split(':').next().unwrap_or("") }),
+                    None => "NONE".into(),
+                }
+            };
+            if matches!(t, T::GetInfo | T::CtapOptions | T::McExt | T::GaExtIn | T::GaExtOut | T::CmResponse) {
+                obs.nontrivial(&[t.name().as_bytes(), &bytes]);
+            }
+            obs.sample_with(|| json!({"class": "decode-type", "type": t.name(), "input": refcbor::diag(&model), "transcript": line.chars().take(100).collect::<String>()}));
+            emit("decode-type", format!("{} {} {}", t.name(), hex(&bytes), line));
+        }
         0 => {
             // encode: a response of any kind, common members only
             let kind = rs::KINDS[src.below(rs::KINDS.len())];
@@ -328,14 +365,14 @@ pub fn gens() -> Vec<Gen> {
     vec![G_CASE]
 }
 
-pub const RULE: &str = "A fixed, seed-determined corpus (the proptest seed is derived from VERIF_SEED and the property only, not from the configuration, and every generator is switched to its common-members-only mode, so all configurations generate the same cases): responses of every kind and stand-alone serialisable types built from feature-independent members (encode transcript: hex of Response::serialize / cbor_serialize output, for responses both directly and after travelling through call_ctap2 / Rpc::call as the answer of an echoing authenticator); request messages of every parameter-bearing command, well-formed and structurally mutated (decode transcript: the decoded value projected by the harness onto the members common to all configurations and rendered as reference CBOR, or the status code); authenticator data of both flavours; CTAP1 APDUs. LargeBlobs responses use only an absent/empty config (its capacity is documented to be feature-dependent). Oracle: the transcripts written by the 8 wire configurations and by the all-features+arbitrary(std) build are identical line for line (compared by the driver; the first differing case is the replay). Non-trivial: a case touching a struct that has feature-gated members in some configuration (GetInfo, CtapOptions, CredentialManagement response, the three extension maps, MakeCredential/GetAssertion requests).";
+pub const RULE: &str = "A fixed, seed-determined corpus (the proptest seed is derived from VERIF_SEED and the property only, not from the configuration, and every generator is switched to its common-members-only mode, so all configurations generate the same cases): responses of every kind and stand-alone serialisable types built from feature-independent members (encode transcript: hex of Response::serialize / cbor_serialize output, for responses both directly and after travelling through call_ctap2 / Rpc::call as the answer of an echoing authenticator); request messages of every parameter-bearing command, well-formed and structurally mutated (decode transcript: the decoded value projected by the harness onto the members common to all configurations and rendered as reference CBOR, or the status code); authenticator data of both flavours; CTAP1 APDUs; canonical encodings of every stand-alone decodable type built from common members, intact or with one member removed / one value replaced by another type (decode-type transcript: status class or the re-encoding). LargeBlobs responses use only an absent/empty config (its capacity is documented to be feature-dependent). Oracle: the transcripts written by the 8 wire configurations and by the all-features+arbitrary(std) build are identical line for line (compared by the driver; the first differing case is the replay). Non-trivial: a case touching a struct that has feature-gated members in some configuration (GetInfo, CtapOptions, CredentialManagement response, the three extension maps, MakeCredential/GetAssertion requests).";
 pub const ASSUMPTIONS: &[&str] = &["the projection (c16::project) reads only members that exist in every configuration", "Certifications exists only under get-info-full and is therefore not compared"];
 
 pub fn run(ctx: &mut Ctx) {
     ctx.seed_config = "common".into();
     let mut lines: Vec<String> = vec![];
     let per = ctx.t(700, 20_000);
-    for class in 0..6usize {
+    for class in 0..7usize {
         // run case by case so that each transcript line is attributable to (gen, words)
         let before = ctx.evaluations;
         let _ = before;
@@ -346,7 +383,7 @@ pub fn run(ctx: &mut Ctx) {
         let _ = std::fs::write(format!("{}.transcript", out), lines.join("\n"));
     }
     ctx.extra.insert("transcript_lines".into(), json!(lines.len()));
-    ctx.require(&["encode:GetInfo", "encode:CredentialManagement", "decode:MakeCredential", "decode:GetAssertion", "decode-faulty", "authdata", "ctap1", "encode-type:get_info::CtapOptions"]);
+    ctx.require(&["encode:GetInfo", "encode:CredentialManagement", "decode:MakeCredential", "decode:GetAssertion", "decode-faulty", "authdata", "ctap1", "encode-type:get_info::CtapOptions", "decode-type:get_info::CtapOptions", "decode-type:faulted"]);
 }
 
 /// Generate the word vectors with proptest first (pure generation, same in every configuration),
@@ -366,7 +403,7 @@ fn run_collect(ctx: &mut Ctx, class: usize, cases: u64, lines: &mut Vec<String>)
             Ok(t) => t.current(),
             Err(_) => break,
         };
-        let mut words = vec![idx(class, 6)];
+        let mut words = vec![idx(class, 7)];
         words.extend_from_slice(&tail);
         LINE.with(|l| *l.borrow_mut() = None);
         let fail = ctx.exec(&G_CASE, &words);
